@@ -60,5 +60,16 @@ Spec == Init /\ [][Next]_vars
 Partition == /\ MAdd(st.dim, st.sigP, st.sigM) = st.sig
              /\ Add(st.psiP, st.psiM) = st.psi
              /\ ~IsPos(Neg(st.psiP)) /\ ~IsPos(Neg(st.psiM))
+(* the split is positively homogeneous: a strain k times as large (k > 0) has k times the split stresses and k^2 times the   *)
+(* split energies - there is no intrinsic strain scale, so an implementation may not compare strains (or their principal       *)
+(* values) with an absolute tolerance.  Checked here for k = 1/2 and k = 3 on every lattice state; the harness replays every   *)
+(* state at the magnitudes Scales (powers of ten) and divides the results back.                                                *)
+ScaledCase(k) == Case(st.dim, st.q, [i \in 1..st.dim |-> Mul(k, st.l[i])])
+HomogeneousFor(k) == LET c == ScaledCase(k) IN
+    /\ c.sigP = MScale(st.dim, k, st.sigP) /\ c.sigM = MScale(st.dim, k, st.sigM)
+    /\ c.psiP = Mul3(k, k, st.psiP) /\ c.psiM = Mul3(k, k, st.psiM)
+Homogeneous == HomogeneousFor(Half) /\ HomogeneousFor(RI(3))
+Scales == <<-3, -6, -9, 0>>         \* exponents of ten of the strain magnitudes the states are replayed at
 EmitOK == Emit => PrintT(<<"STRAIN", ToJson(st)>>)
+EmitScales == (Emit /\ st.dim = 2 /\ st.q = "id" /\ \A i \in 1..2 : st.l[i] = Zero) => PrintT(<<"SCALES", ToJson(Scales)>>)
 =============================================================================
